@@ -42,5 +42,5 @@ man = {
     "not_applicable": [{"property_id": p, "reason": r} for p, r in sorted(M.NOT_APPLICABLE.items())],
     "notes": M.NOTES,
 }
-json.dump(man, open("/verif/MANIFEST.json", "w"), indent=1)
+json.dump(man, open(os.path.join(os.path.dirname(os.path.dirname(os.path.abspath(__file__))), "MANIFEST.json"), "w"), indent=1)
 print("wrote MANIFEST.json with", len(checks), "checks,", len(M.NOT_APPLICABLE), "not_applicable")
